@@ -512,6 +512,9 @@ class CParser:
             return False
         if tok_type in _STARTS_STATEMENT:
             return True
+        if tok_type == "TYPEID" and self._peek_type(2) == "COLON":
+            # a label spelled like a typedef name
+            return True
         return self._starts_expression()
 
     def _starts_declarator(self, id_only: bool = False) -> bool:
